@@ -223,14 +223,42 @@ class _Gen:
         if len(chosen) < 2:
             return chosen
         a, b = chosen[0], chosen[1]
-        anc_a = self.ancestors(a['id'])
-        anc_b = self.ancestors(b['id'])
-        good = [a, b]
-        if a['id'] in anc_b:      # b derives from a -> b must come first
-            good = [b, a]
-        if rng.chance(self.p['inconsistent']):
-            return list(reversed(good))
-        return good
+        ok_ab = self._lin_ok([a['id'], b['id']])
+        ok_ba = self._lin_ok([b['id'], a['id']])
+        want_bad = rng.chance(self.p['inconsistent'])
+        if want_bad:
+            if not ok_ab:
+                return [a, b]
+            if not ok_ba:
+                return [b, a]
+            return [a, b]
+        if ok_ab:
+            return [a, b]
+        if ok_ba:
+            return [b, a]
+        return [a]
+
+    def _lin(self, cid: int) -> Optional[List[int]]:
+        from .pytruth import c3_merge
+        bases = [x for x in self.defs[cid].get('bases', []) if x is not None]
+        lins = []
+        for x in bases:
+            lx = self._lin(x)
+            if lx is None:
+                return None
+            lins.append(lx)
+        m = c3_merge(lins + [list(bases)])
+        return None if m is None else [cid] + m
+
+    def _lin_ok(self, bases: List[int]) -> bool:
+        from .pytruth import c3_merge
+        lins = []
+        for x in bases:
+            lx = self._lin(x)
+            if lx is None:
+                return False
+            lins.append(lx)
+        return c3_merge(lins + [list(bases)]) is not None
 
     def ancestors(self, cid: Optional[int]) -> set:
         out: set = set()
@@ -339,6 +367,11 @@ class _Gen:
         """Create one import statement in ``mod`` referring to ``target``; update ``ns``."""
         p = self.p
         tns = self.ns[target]
+        # Importing a.b.c executes a, a.b and a.b.c.  Every prefix that is not an
+        # ancestor of the importer itself is therefore a dependency too.
+        prefixes = self.exec_prefixes(mod, target)
+        if not back_edge and any(pf not in self.done for pf in prefixes):
+            return None
         forms: List[Tuple[str, float]] = []
         importable = [n for n in tns if n not in ns and not self._clash(mod, n)]
         if importable:
@@ -387,6 +420,11 @@ class _Gen:
                 root = self.root_of(target)
                 if root in ns and ns[root] != ['m', root]:
                     return None
+                # `import a.b.c` is used as `a.b.c.X`: every prefix must be fully
+                # initialised when the attribute access runs
+                tparts = target.split('.')
+                if not back_edge and any('.'.join(tparts[:i]) not in self.done for i in range(1, len(tparts))):
+                    return None
                 ns[root] = ['m', root]
                 self._routes[(mod, root)] = 'import'
                 self._vias[(mod, root)] = target
@@ -417,7 +455,19 @@ class _Gen:
                 self._origin[(mod, n)] = (target, n)
             st = {'k': 'from', 'mod': target, 'level': level, 'rel': rel, 'names': '*', 'guard': None}
         self.edges.append((mod, target))
+        for pf in prefixes:
+            self.edges.append((mod, pf))
         return st
+
+    def exec_prefixes(self, mod: str, target: str) -> List[str]:
+        parts = target.split('.')
+        out = []
+        for i in range(1, len(parts)):
+            pf = '.'.join(parts[:i])
+            if mod == pf or mod.startswith(pf + '.'):
+                continue
+            out.append(pf)
+        return out
 
     def _clash(self, mod: str, name: str) -> bool:
         """Would binding ``name`` in ``mod`` shadow a submodule of ``mod``?"""
@@ -462,6 +512,8 @@ class _Gen:
                         cns = self.cns[st['id']]
                         tns = self.ns[t]
                         cand = [n for n in tns if n not in cns and n not in ns]
+                        if any(pf not in self.done for pf in self.exec_prefixes(mod, t)):
+                            cand = []
                         if cand:
                             n = rng.choice(cand)
                             cns[n] = list(tns[n])
@@ -490,6 +542,168 @@ class _Gen:
                 body.append({'k': 'alias', 'name': an, 'target': {'expr': n, 'id': ns[n][1]}})
         # __all__
         self.decide_all(rng, mod)
+        self.history_knobs(rng.sub('hist'), mod)
+
+    def history_knobs(self, rng: Rng, mod: str) -> None:
+        """Knobs that create analysis histories outside the subset whose Python
+        semantics the ground truth models (duplicates, collisions, zope, __doc__
+        assignment ...).  Worlds that use one are flagged in truth['exotic'] and are
+        never judged by the reference-model oracles."""
+        p = self.p
+        m = self.modules[mod]
+        ns = self.ns[mod]
+        body = m['body']
+        # duplicate definition of one name
+        if rng.chance(p['dup']):
+            cands = [i for i, st in enumerate(body) if st['k'] in ('class', 'func', 'var')]
+            if cands:
+                i = rng.choice(cands)
+                st = body[i]
+                if st['k'] == 'class':
+                    st2 = self.mk_class(rng, mod, {}, depth=1)
+                elif st['k'] == 'func':
+                    st2 = self.mk_func(rng, mod)
+                else:
+                    st2 = self.mk_var(rng, mod)
+                old_name = st2['name']
+                st2['name'] = st['name']
+                self.defs[st2['id']]['name'] = st['name']
+                self.defs[st2['id']]['dup_of'] = st['id']
+                form = rng.choice(['ifelse', 'tryexcept', 'rebind'])
+                if form == 'rebind':
+                    body.insert(rng.randint(i + 1, len(body)), st2)
+                    ns[st['name']] = ['d', st2['id']]
+                    self.loc[st2['id']] = [mod, st['name']]
+                else:
+                    body[i] = {'k': form, 'then': [st], 'else': [st2]}
+                self.exotic.add('dup')
+        # a local definition colliding with a re-exported name
+        if m['all'] and rng.chance(p['onto_existing']):
+            cands = [n for n in m['all'] if self._routes.get((mod, n)) in ('from', 'star')
+                     and ns.get(n, [None])[0] == 'd' and self.defs[ns[n][1]]['kind'] == 'class']
+            if cands:
+                n = rng.choice(cands)
+                st2 = self.mk_class(rng, mod, {}, depth=1)
+                st2['name'] = n
+                self.defs[st2['id']]['name'] = n
+                self.defs[st2['id']]['collides_with'] = ns[n][1]
+                pos = rng.choice([0, len(body)])
+                body.insert(pos, st2)
+                self.exotic.add('onto_existing')
+        # cross-module __doc__ assignment
+        if rng.chance(p['docassign']):
+            targets = []
+            for n, b in ns.items():
+                r = self._routes.get((mod, n))
+                if b[0] == 'd' and r in ('from', 'from-as') and self.defs[b[1]]['kind'] in ('func', 'class'):
+                    targets.append((n, b[1], r))
+                elif b[0] == 'm' and r in ('import-as', 'frompkg') and b[1] in self.done:
+                    for n2, b2 in self.ns[b[1]].items():
+                        if b2[0] == 'd' and self.defs[b2[1]]['kind'] in ('func', 'class') and \
+                                self._routes.get((b[1], n2)) == 'local':
+                            targets.append((f'{n}.{n2}', b2[1], r + '-attr'))
+            # one assigner per object: with two, Python's own result depends on the import order
+            targets = [t for t in targets if t[1] not in self.docassigned]
+            if targets:
+                expr, tid, r = rng.choice(targets)
+                self.docassigned.add(tid)
+                body.append({'k': 'docassign', 'target': {'expr': expr, 'id': tid, 'route': r},
+                             'text': f'Marker M{tid}M. Reassigned from {mod}.'})
+                self.exotic.add('docassign')
+        # alias of a method at module level (may then be re-exported by someone else)
+        if rng.chance(p['method_alias_reexport']):
+            cands = []
+            for st in body:
+                if st['k'] == 'class':
+                    for ms in st['body']:
+                        if ms['k'] == 'func' and ms.get('deco') is None:
+                            cands.append((st, ms))
+            if cands:
+                cst, ms = rng.choice(cands)
+                self.alias_n += 1
+                an = f'ma{self.alias_n}_{ms["name"]}'
+                ns[an] = ['d', ms['id']]
+                self._routes[(mod, an)] = 'alias'
+                body.append({'k': 'alias', 'name': an, 'target': {'expr': f'{cst["name"]}.{ms["name"]}', 'id': ms['id']}})
+                self.method_aliases.append((mod, an, ms['id']))
+                self.exotic.add('method_alias')
+        # re-export of a sub-module
+        if m['pkg'] and rng.chance(p['module_reexport']):
+            subs = [x for x in self.modules if self.parent_of(x) == mod and x in self.done]
+            if subs:
+                sub = rng.choice(subs)
+                tail = sub.rpartition('.')[2]
+                if tail not in ns:
+                    ns[tail] = ['m', sub]
+                    self._routes[(mod, tail)] = 'frompkg'
+                    self._vias[(mod, tail)] = sub
+                    body.insert(0, {'k': 'from', 'mod': mod, 'level': 1, 'rel': '', 'names': [[tail, None]],
+                                    'guard': None, 'submodule': sub})
+                    self.edges.append((mod, sub))
+                    m['all'] = (m['all'] or []) + [tail]
+                    self.exotic.add('module_reexport')
+
+    def zope_knob(self, rng: Rng, order: List[str]) -> None:
+        """Interfaces in one module; sub-interfaces and implementers elsewhere, reached
+        by every import route."""
+        if len(order) < 2:
+            return
+        zmod = order[0]
+        zm = self.modules[zmod]
+        zm.setdefault('prelude', []).append('from zope.interface import Interface, implementer')
+        ifaces = []
+        for _ in range(rng.randint(1, 2)):
+            cid = self.fid()
+            name = f'I{cid}'
+            st = {'k': 'class', 'id': cid, 'name': name, 'body': [], 'deco': [], 'fields': [],
+                  'bases': [{'expr': 'Interface', 'id': None, 'route': 'ext', 'via': None, 'ext': True}]}
+            self.defs[cid] = {'kind': 'class', 'name': name, 'module': zmod, 'outer': None,
+                              'bases': [None], 'members': {}, 'iface': True}
+            self.cns[cid] = {}
+            st['body'].append(self.mk_func(rng, zmod, outer=cid))
+            zm['body'].append(st)
+            self.ns[zmod][name] = ['d', cid]
+            self._routes[(zmod, name)] = 'local'
+            self.loc[cid] = [zmod, name]
+            ifaces.append(cid)
+        self.exotic.add('zope')
+        for mod in order[1:]:
+            if not rng.chance(0.6):
+                continue
+            ns = self.ns[mod]
+            m = self.modules[mod]
+            save = dict(ns)
+            st = self.gen_import(rng.sub(mod), mod, zmod, ns)
+            if st is None or st.get('guard'):
+                if st is not None:
+                    st['guard'] = None
+                else:
+                    continue
+            m['body'].append(st)
+            refs = [r for r in self.class_refs(rng, mod, ns, None) if r['id'] in ifaces]
+            if not refs:
+                continue
+            ref = rng.choice(refs)
+            if rng.chance(0.5):
+                # sub-interface
+                cid = self.fid()
+                name = f'I{cid}'
+                cst = {'k': 'class', 'id': cid, 'name': name, 'body': [], 'deco': [], 'fields': [], 'bases': [dict(ref)]}
+                self.defs[cid] = {'kind': 'class', 'name': name, 'module': mod, 'outer': None,
+                                  'bases': [ref['id']], 'members': {}, 'iface': True}
+                self.cns[cid] = {}
+            else:
+                cst = self.mk_class(rng, mod, {}, depth=1)
+                cid = cst['id']
+                cst['deco'] = [f'implementer({ref["expr"]})']
+                self.defs[cid]['implements'] = [ref['id']]
+                m.setdefault('prelude', [])
+                if 'from zope.interface import implementer' not in m['prelude'] and mod != zmod:
+                    m['prelude'].append('from zope.interface import implementer')
+            m['body'].append(cst)
+            ns[cst['name']] = ['d', cid]
+            self._routes[(mod, cst['name'])] = 'local'
+            self.loc[cid] = [mod, cst['name']]
 
     def decide_all(self, rng: Rng, mod: str) -> None:
         p = self.p
@@ -519,6 +733,16 @@ class _Gen:
                 if src_all is None or org_name not in src_all:
                     self.reexporters.setdefault(i, []).append(mod)
                     self.loc[i] = [mod, n]
+                    d = self.defs[i]
+                    direct = (org_mod == d['module'] and org_name == d['name'] and
+                              self._routes.get((org_mod, org_name)) == 'local')
+                    self.reexport_direct[i] = self.reexport_direct.get(i, True) and direct
+            if p['method_alias_reexport'] > 0:
+                for n, b in ns.items():
+                    if b[0] == 'd' and self.defs[b[1]]['outer'] is not None and \
+                            self._routes.get((mod, n)) in ('from', 'star') and rng.chance(0.7):
+                        allnames.append(n)
+                        self.exotic.add('method_alias_reexported')
             rng.shuffle(allnames)
             m['all'] = allnames
         elif own and rng.chance(p['own_all']):
@@ -531,6 +755,10 @@ class _Gen:
         self._plain_imports: Dict[str, List[str]] = {}
         self._origin: Dict[Tuple[str, str], Tuple[str, str]] = {}
         self.done: List[str] = []
+        self.exotic: set = set()
+        self.docassigned: set = set()
+        self.reexport_direct: Dict[int, bool] = {}
+        self.method_aliases: List[Tuple[str, str, int]] = []
         self.rng_rel = self.rng.sub('rel')
         self.layout()
         order = self.rng.sub('pi').shuffled(list(self.modules))
@@ -541,9 +769,12 @@ class _Gen:
         for mod in order:
             self.fill_module(mod, list(self.done))
             self.done.append(mod)
+        if self.rng.sub('zope?').chance(self.p['zope']):
+            self.zope_knob(self.rng.sub('zope'), order)
         if self.p['cyclic']:
             self.add_back_edges(order)
         truth = {
+            'exotic': sorted(self.exotic),
             'import_order': order,
             'ns': self.ns,
             'cns': {str(k): v for k, v in self.cns.items()},
@@ -554,6 +785,7 @@ class _Gen:
             'routes': {f'{a}:{b}': v for (a, b), v in self._routes.items()},
             'vias': {f'{a}:{b}': v for (a, b), v in self._vias.items() if v is not None},
             'origin': {f'{a}:{b}': list(v) for (a, b), v in self._origin.items()},
+            'reexport_direct': {str(k): v for k, v in self.reexport_direct.items()},
         }
         truth['cyclic'] = has_cycle(list(self.modules), truth['edges'])
         return {'modules': self.modules, 'truth': truth, 'profile': self.p}
@@ -655,7 +887,7 @@ def _doc(i: int, extra: str = '', indent: str = '    ') -> str:
     return f'{indent}"""Marker M{i}M.{extra}"""\n'
 
 
-def render_stmt(st: Dict[str, Any], indent: str, out: List[str], in_class: bool = False) -> None:
+def render_stmt(st: Dict[str, Any], indent: str, out: List[str], in_class: bool = False, py: bool = False) -> None:
     k = st['k']
     if k == 'class':
         for d in st.get('deco', []):
@@ -669,8 +901,11 @@ def render_stmt(st: Dict[str, Any], indent: str, out: List[str], in_class: bool 
             extra += f'\n{indent}    '
         if not st.get('nodoc'):
             out.append(_doc(st['id'], extra + st.get('docextra', ''), indent + '    '))
+        if py:
+            # only when the world is imported by CPython to validate the ground truth
+            out.append(f'{indent}    def __class_getitem__(cls, item): return cls\n')
         for s in st['body']:
-            render_stmt(s, indent + '    ', out, in_class=True)
+            render_stmt(s, indent + '    ', out, in_class=True, py=py)
         if st.get('nodoc') and not st['body']:
             out.append(f'{indent}    pass\n')
     elif k == 'func':
@@ -724,12 +959,12 @@ def render_stmt(st: Dict[str, Any], indent: str, out: List[str], in_class: bool 
         else:
             out.append(f'{indent}try:\n')
         for s in st['then']:
-            render_stmt(s, indent + '    ', out, in_class)
+            render_stmt(s, indent + '    ', out, in_class, py)
         if not st['then']:
             out.append(f'{indent}    pass\n')
         out.append(f'{indent}else:\n' if k == 'ifelse' else f'{indent}except ImportError:\n')
         for s in st['else']:
-            render_stmt(s, indent + '    ', out, in_class)
+            render_stmt(s, indent + '    ', out, in_class, py)
         if not st['else']:
             out.append(f'{indent}    pass\n')
     elif k == 'implements':
@@ -759,7 +994,7 @@ def render_module(name: str, m: Dict[str, Any], tc_true: bool = False) -> str:
     if m['all'] is not None and not m.get('all_at_end'):
         out.append(f'__all__ = {m["all"]!r}\n')
     for st in m['body']:
-        render_stmt(st, '', out)
+        render_stmt(st, '', out, py=tc_true)
     if m['all'] is not None and m.get('all_at_end'):
         out.append(f'__all__ = {m["all"]!r}\n')
     return ''.join(out)
